@@ -192,10 +192,26 @@ ValidV6(x) ==
                 ri == SubSeq(x, i0 + 2, Len(x))
             IN  Side(le) /\ Side(ri) /\ Groups(le) + Groups(ri) <= 7
 
+(* IPvFuture = "v" 1*HEXDIG "." 1*( unreserved / sub-delims / ":" )   (RFC 3986 section 3.2.2) *)
+SubDelims == {33, 36, 38, 39, 40, 41, 42, 43, 44, 59, 61}
+ValidVFuture(x) ==
+    LET Dots == Positions(x, 46)
+    IN  /\ Len(x) >= 4 /\ x[1] \in {118, 86} /\ Dots # {}
+        /\ LET d == MinOf(Dots)
+            IN  /\ d >= 3 /\ d < Len(x)
+                /\ \A i \in 2..d - 1 : IsHex(x[i])
+                /\ \A i \in d + 1..Len(x) : x[i] \in Unreserved \cup SubDelims \cup {COLON}
+
 (* forms for which the property promises the split: reg-names / IPv4, and IP literals known to be valid *)
 ValidHostForm(s) ==
     /\ AuthorityShape(s)
-    /\ (s # <<>> /\ s[1] = LBR) => (ValidV6(HostSplit(s).host) \/ HostSplit(s).host \in KnownLiterals)
+    /\ (s # <<>> /\ s[1] = LBR) => (\/ ValidV6(HostSplit(s).host) \/ ValidVFuture(HostSplit(s).host)
+                                     \/ HostSplit(s).host \in KnownLiterals)
+
+(* the authority s without its port, and with another one *)
+BareAuthority(s) == LET r == HostSplit(s)
+                    IN  IF s # <<>> /\ s[1] = LBR THEN <<LBR>> \o r.host \o <<RBR>> ELSE r.host
+HasPort(s) == HostSplit(s).portstr # <<>>
 
 ParseHost(s) == LET r == HostSplit(s)
                 IN  [host |-> r.host, port |-> IF r.portstr = <<>> THEN NoPort ELSE NatOf(r.portstr)]
